@@ -227,28 +227,28 @@ ADDENDA = {
     "C01": "Also: the inverse permutation `trans.index(p)` takes a native position; negative positions are normalised with the leg count of "
            "their own index space; a result whose signature/fusion records were already reordered through `trans` resets it; parallel "
            "per-block sequences (struct.t, struct.D, slices) that are zipped were narrowed by the same selection (engine seqsel); no call "
-           "passes two of the caller's names for each other's parameter.",
+           "passes two of the caller's names for each other's parameter. Round 4: the four fields permuted by consume_transpose travel together on in-place consumption; public Tensor methods that read per-leg native fields account for the pending permutation (who-must-read, ten named exceptions); `_join_contiguous_slices` merges exactly the runs contiguous in both lists (interpreted on witnesses); generic rules U6-U10 (written mutable defaults, optional transformations skipped by a shortcut, documented defaults, slipped breaks, keywords swallowed by named parameters).",
     "C02": "Also: remove_leg's total charge involves the signature of the removed leg; the axis-range guard shared by tensordot/trace accepts "
-           "exactly 0..ndim-1 (evaluated on witness axes); the E3 additions listed under C01.",
+           "exactly 0..ndim-1 (evaluated on witness axes); the E3 additions listed under C01. Round 4: in-place consumption takes hfs with struct/slices/data/trans; a struct whose block list was narrowed carries the matching size when it becomes the struct of a result.",
     "C03": "Also: the mask test ranges over every leg; the fusion-tree parsers pop their parallel stacks in lock-step; the E3 additions listed "
-           "under C01.",
+           "under C01. Round 4: the compatibility test compares every field of the fusion records; splices at precomputed positions run back to front.",
     "C04": "Also: the leg groups of the factorisations go through the pending permutation in the right direction (index typing in the scope of "
-           "svd/qr/eig/eigh/moveaxis); the (signature, hfs, mfs) triples are discovered from the results, not from local names.",
+           "svd/qr/eig/eigh/moveaxis); the (signature, hfs, mfs) triples are discovered from the results, not from local names. Round 4: every scipy svds call is re-ordered to descending on every path, for every solver; no option is read from **kwargs under the name of a declared parameter.",
     "C05": "Also: the tables of open edges and pending swaps are renumbered by the same maps; every insertion into the Z2 set of pending swaps "
-           "is a toggle; the legs whose parity swap_gate reads are addressed through the pending permutation in the right direction.",
+           "is a toggle; the legs whose parity swap_gate reads are addressed through the pending permutation in the right direction. Round 4: the crossings discarded before a jump are those the jump resolves (all of a leg only under the bundle-size assertion).",
     "C06": "Also: -psi, number*psi and psi/number agree with psi*(..) as rational identities in number and |number| (complex scalars); the "
-           "virtual leg that absorbs the total charge of a site tensor is the first one.",
+           "virtual leg that absorbs the total charge of a site tensor is the first one. Round 4: sums over member environments count each member once; numpy scalars reach __mul__ unchanged.",
     "C08": "Also: the discarded weights are composed so that kept weights multiply (inductive polynomial invariant, any spelling); canonize_ "
            "absorbs a central block before every orthogonalize_site_ (typestate on the CFG). Floating-point cancellation in an algebraically "
-           "identical composition is NOT decided.",
+           "identical composition is NOT decided. Round 4: orthogonalize_site_/diagonalize_central_ reset the factor for normalize=True and accumulate for normalize=False (per value of the knob); documented defaults equal signature defaults.",
     "C09": "Also: every Heff sibling carries the operator's factor on every path; the local eigenproblem is solved for which='SR' for every "
-           "option set (defaults of dmrg_ and of eigs); the maps handed to eigs are homogeneous in their argument.",
+           "option set (defaults of dmrg_ and of eigs); the maps handed to eigs are homogeneous in their argument. Round 4: the norm factor of the input is reset on every path to the construction of the environment.",
     "C10": "Also: the local generators handed to expmv are homogeneous in their argument (no affine term); composition constants written as "
-           "expressions are evaluated numerically.",
+           "expressions are evaluated numerically. Round 4: the sweep call that samples H(t) receives the environment through the reset in the same call (per sub-step).",
     "C13": "Also: the relative tolerance refers to the maximum of the very values compared; selection by comparison with the K-th largest "
            "value (ties) is a violation; a dict-valued per-sector limit of the partial-SVD policies is looked up by a key depending on the "
-           "same options (nU, sU) as the S-sector charges; K == 0 protection is decided on the CFG.",
-    "C14": "Also: parallel per-block sequences narrowed by the same selection (seqsel), converse of I2, inverse-permutation typing.",
+           "same options (nU, sU) as the S-sector charges; K == 0 protection is decided on the CFG. Round 4: the spectrum masked and returned by the wrappers is the one the decomposition computed; every sector passes the computation of its keep-count in the per-block stage.",
+    "C14": "Also: parallel per-block sequences narrowed by the same selection (seqsel), converse of I2, inverse-permutation typing. Round 4: the resize/clear/info tables pair every kernel with itself (K4); no break directly behind an inner search loop that has none; the who-must-read rule I9.",
     "C15": "Also: library calls allowed to overwrite their operand (scipy overwrite_a/overwrite_b=True) count as writes into that operand.",
     "C16": "Also: no parameter of a memoised function is an instance of a stateful identity-hashed class (Tensor, MPS, ...); the fermionic "
            "flag vector handed to the memoised sign computations has one (boolean) encoding on every path.",
@@ -257,9 +257,9 @@ ADDENDA = {
            "int/tuple keys of an MPS with a central block.",
     "C18": "Also: every value of the requested Krylov dimension of expmv is bounded by the maximum its controller tests for; every step is "
            "bounded by the remaining time (accepted steps add up to |t|); the right-hand side of lin_solver's projected problem is the "
-           "norm of the residual the basis starts from.",
+           "norm of the residual the basis starts from. Round 4: no function writes into a mutable default (shared Hessenberg dictionary); all three solvers size the projected problem as len(basis) on happy breakdown and len(basis)-1 otherwise.",
     "C19": "Also: guards written as raise-in-loop and a modulus held in a module-level constant are evaluated alike; sorted storage of (t, D) "
-           "is decided by evaluating the two store expressions on a witness list of pairs.",
+           "is decided by evaluating the two store expressions on a witness list of pairs. Round 4: LegMeta.conj returns the dual (s=-self.s, conjugated sub-legs); a component computed from other columns of the signed sum is a violation.",
     "C20": "Also: f_ordered is the column-major total order on all integer sites (interpreted on 3200 witness pairs); site-addressed reads of "
            "the stored data go through __getitem__ (patch first); the bond tables concatenated by bonds() hold one sequence type and bonds "
            "are built from nn_site() results only under a None test.",
